@@ -87,10 +87,13 @@ func (r *vC18Reader) QueryKey(context.Context, types.BoundContract, query.KeyFil
 	return nil, vC18Err
 }
 func (r *vC18Reader) waitArrival(t *testing.T) {
-	select {
-	case <-r.arrived:
-	case <-time.After(10 * time.Second):
-		t.Fatalf("C18: poller did not call the contract reader within 10s")
+	// the event is the call itself (normally within a millisecond); "did not call" is decided by a watch that
+	// stretches on a starved machine, and only after a second, longer one has expired too - never by the wall clock alone
+	if _, ok := vRecvW(r.arrived, 30*time.Second); ok {
+		return
+	}
+	if _, ok := vRecvW(r.arrived, 60*time.Second); !ok {
+		t.Fatalf("C18: poller did not call the contract reader")
 	}
 }
 
@@ -498,10 +501,11 @@ func vC18NewPoller(rd *vC18Reader, interval time.Duration) *rmnHomePoller {
 func vC18Watch(t *testing.T, what string, f func()) {
 	done := make(chan struct{})
 	go func() { f(); close(done) }()
-	select {
-	case <-done:
-	case <-time.After(10 * time.Second):
-		t.Fatalf("C18: %s did not return within 10s", what)
+	if _, ok := vRecvW(done, 30*time.Second); ok {
+		return
+	}
+	if _, ok := vRecvW(done, 60*time.Second); !ok { // second chance before a hang is declared
+		t.Fatalf("C18: %s did not return", what)
 	}
 }
 
@@ -534,9 +538,7 @@ func (g *vC18Gen) runHistory(t *testing.T, evs []vC18Ev) []string {
 			if phase != 1 {
 				continue
 			}
-			select {
-			case rd.answers <- ev.ans:
-			case <-time.After(10 * time.Second):
+			if !vSendW(rd.answers, ev.ans, 30*time.Second) && !vSendW(rd.answers, ev.ans, 60*time.Second) {
 				t.Fatalf("C18: poller did not take the scripted answer")
 			}
 			rd.waitArrival(t) // the next fetch has begun, so this one is fully processed
@@ -679,10 +681,10 @@ func TestVerif_C18_rmn_conc(t *testing.T) {
 		if err := p.Start(context.Background()); err != nil {
 			t.Fatalf("C18: Start: %v", err)
 		}
-		select {
-		case <-rd.done:
-		case <-time.After(20 * time.Second):
-			t.Fatalf("C18: the poller did not perform %d polls in 20s", K)
+		if _, ok := vRecvW(rd.done, 60*time.Second); !ok {
+			if _, ok := vRecvW(rd.done, 120*time.Second); !ok { // second chance before a hang is declared
+				t.Fatalf("C18: the poller did not perform %d polls", K)
+			}
 		}
 		time.Sleep(300 * time.Microsecond)
 		stop.Store(true)
